@@ -45,6 +45,7 @@ type cfg struct {
 	D1Kind  string `json:"d1_kind,omitempty"`
 	D2Phase int    `json:"d2_phase,omitempty"`
 	Limit   string `json:"limit_action"`
+	D0      bool   `json:"d0,omitempty"` // a deny rule (id 200) in phase 1 *before* the ctl switch
 }
 
 type kase struct {
@@ -81,6 +82,9 @@ func (c cfg) conf() string {
 			fmt.Fprintf(&sb, "SecDefaultAction \"phase:%d,log,auditlog,deny,status:403\"\n", p)
 		}
 		fmt.Fprintf(&sb, "SecAction \"id:%d,phase:%d,pass,nolog,setvar:tx.p%d=+1\"\n", 100+p, p, p)
+		if p == 1 && c.D0 {
+			sb.WriteString("SecAction \"id:200,phase:1,log,deny,status:402\"\n")
+		}
 		if p == 1 && c.Ctl != "" {
 			fmt.Fprintf(&sb, "SecAction \"id:150,phase:1,pass,nolog,ctl:ruleEngine=%s\"\n", c.Ctl)
 		}
@@ -234,6 +238,9 @@ func isRespWrite(op int) bool { return op == opWR2 || op == opWR5 }
 
 // eff is the engine mode in force once the observed phases have run.
 func (c cfg) eff(o obs) string {
+	if c.D0 && c.Engine == "On" {
+		return "On" // rule 200 interrupts before the ctl rule is reached
+	}
 	if c.Ctl != "" && o.P[1] >= 1 {
 		return c.Ctl
 	}
@@ -313,7 +320,15 @@ func (c cfg) invariants(pre obs, op int, ret string, isPhase bool, post obs) (st
 			if p == 1 && c.Ctl != "" {
 				effAt = c.Ctl
 			}
-			if c.D1Phase == p && effAt == "On" {
+			if p == 1 && c.D0 && c.Engine == "On" {
+				want := "{rule=200 action=deny status=402 data=\"\"}"
+				if post.Itr != want {
+					return bad("wrong-or-missing-interruption:first-rule-before-ctl", "phase 1 evaluated with deny rule 200 first and engine On: Interruption()=%s, expected %s", post.Itr, want)
+				}
+				if post.Q[1] != 0 || contains(post.Matched, 201) || contains(post.Matched, 202) || contains(post.Matched, 150) {
+					return bad("rules-evaluated-after-interruption-in-phase", "phase 1: rules after the interrupting rule 200 were evaluated (matched=%v)", post.Matched)
+				}
+			} else if c.D1Phase == p && effAt == "On" {
 				if post.Itr != c.expectedD1() {
 					return bad("wrong-or-missing-interruption:"+c.D1Kind, "phase %d evaluated with rule 201 (%s) and engine On: Interruption()=%s, expected %s", p, c.D1Kind, post.Itr, c.expectedD1())
 				}
@@ -331,7 +346,7 @@ func (c cfg) invariants(pre obs, op int, ret string, isPhase bool, post obs) (st
 	}
 	// a new interruption must have a documented origin
 	if post.Itr != "-" {
-		fromRule := strings.HasPrefix(post.Itr, "{rule=201 ") || strings.HasPrefix(post.Itr, "{rule=202 ")
+		fromRule := strings.HasPrefix(post.Itr, "{rule=201 ") || strings.HasPrefix(post.Itr, "{rule=202 ") || (c.D0 && strings.HasPrefix(post.Itr, "{rule=200 "))
 		fromLimit := (isReqWrite(op) && post.Itr == "{rule=0 action=deny status=413 data=\"\"}") || (isRespWrite(op) && post.Itr == "{rule=0 action=deny status=500 data=\"\"}")
 		if !fromRule && !(fromLimit && c.Limit == "Reject") {
 			return bad("interruption-of-unknown-origin", "%s produced %s", opNames[op], post.Itr)
@@ -374,6 +389,12 @@ func configs(thorough bool, emit func(c cfg)) {
 			}
 			for _, lim := range []string{"Reject", "ProcessPartial"} {
 				emit(cfg{Engine: e, Ctl: ctl, Limit: lim})
+				if lim == "Reject" && e != "Off" {
+					// a disruptive rule before the switch: would-be interruption in DetectionOnly, real one in On
+					emit(cfg{Engine: e, Ctl: ctl, Limit: lim, D0: true})
+					emit(cfg{Engine: e, Ctl: ctl, Limit: lim, D0: true, D1Phase: 1, D1Kind: "deny", D2Phase: 2})
+					emit(cfg{Engine: e, Ctl: ctl, Limit: lim, D0: true, D1Phase: 2, D1Kind: "deny", D2Phase: 2})
+				}
 				for dp := 1; dp <= 4; dp++ {
 					for ki, k := range kinds {
 						if !thorough && ((dp+ki)%3 != 0 || ctl != "") && k != "deny" {
